@@ -85,6 +85,13 @@ def run_determine(case):
                   tags={"number": number, "offset": off})
     if back2 != back:
         S.problem("from_shorthand(%r, %r, True) vs default direction" % (a, short), back, back2)
+    # the same questions with the flag passed by keyword, in alternating order: the flag's value decides, not how it is passed
+    kw = [intervals.determine(a, b, shorthand=True), intervals.determine(a, b, shorthand=False),
+          intervals.determine(a, b, shorthand=True), intervals.determine(a, b, shorthand=False)]
+    S.trans(4)
+    if kw != [short, long_, short, long_]:
+        S.problem("determine(%r, %r, shorthand=True / False / True / False) with the flag passed by keyword" % (a, b),
+                  [short, long_, short, long_], kw)
     if a == "C" and len(b) == 3:
         S.sample(case)
 
@@ -123,6 +130,12 @@ def run_shorthand(case):
             S.problem(site + " pitch class", wantpc, {"result": r, "pc": P.pc(r)}, detail={"semitones": semis})
     if up != up2:
         S.problem("from_shorthand(%r, %r) default direction" % (name, sh), up2, up)
+    kw = [intervals.from_shorthand(name, sh, up=True), intervals.from_shorthand(name, sh, up=False),
+          intervals.from_shorthand(name, sh, up=True), intervals.from_shorthand(name, sh, up=False)]
+    S.trans(4)
+    if kw != [up, down, up, down]:
+        S.problem("from_shorthand(%r, %r, up=True / False / True / False) with the flag passed by keyword" % (name, sh),
+                  [up, down, up, down], kw)
     S.outcome((sh, "up", up if isinstance(up, str) else repr(up)))
     S.outcome((sh, "down", down if isinstance(down, str) else repr(down)))
     if P.is_name(up):
